@@ -117,6 +117,27 @@ Theorem C02_history_valid_given_producers :
 Proof. exact history_valid. Qed.
 Print Assumptions C02_history_valid_given_producers.
 
+(** pixel columns have one common length equal to the recorded nnz: whatever the preallocated size
+    and however the stream is cut into chunks (no chunk at all and empty chunks included), the
+    resize/write loop of write_pixels leaves the concatenation of the chunks and returns its length *)
+Theorem C02_write_pixels_col_spec : forall (init : Z) (chunks : list (list Z)),
+  write_pixels_col init chunks = (concat chunks, zlen (concat chunks)).
+Proof. exact write_pixels_col_spec. Qed.
+Print Assumptions C02_write_pixels_col_spec.
+
+(** ... which was false before the repair of defect D21 (empty stream, preallocated rows stay) *)
+Theorem C02_write_pixels_col_old_refuted :
+  exists init chunks, write_pixels_col_old init chunks <> (concat chunks, zlen (concat chunks)).
+Proof. exact write_pixels_col_old_refuted. Qed.
+Print Assumptions C02_write_pixels_col_old_refuted.
+
+(** create() fed chunk by chunk = create() on the concatenated stream, so C02_create_valid covers
+    every chunking *)
+Theorem C02_create_chunked_eq : forall (n_chroms : Z) (chroms : list Z) (chunks : list (list pixel)) (symm : bool),
+  create_chunked n_chroms chroms chunks symm = create_model n_chroms chroms (concat chunks) symm.
+Proof. exact create_chunked_eq. Qed.
+Print Assumptions C02_create_chunked_eq.
+
 (** re-indexing a valid collection with any block size reproduces its stored indexes *)
 Theorem C02_reindex_valid : forall (c : cooler) (cs : Z),
   ValidCSR c -> 0 <= nchroms c -> 1 <= cs ->
